@@ -10,6 +10,7 @@
 //	crash:db-not-fold-of-prefix    the DB differs from a fresh DB that applied log entries 0..c in order
 //	crash:entry-applied-twice      replay applied an offset <= the commit offset already stored
 //	crash:entry-skipped            replay did not start at c+1 / skipped an offset / stopped before the head
+//	(live phases also report crash:entry-skipped / crash:entry-applied-twice: what a crash at that moment leaves)
 //	apply:out-of-offset-order      a live application (leader pipeline, follower round) was not at commit+1
 //	apply:beyond-advertised-commit a follower applied an entry above the commit offset advertised by the leader
 package main
@@ -96,6 +97,8 @@ func runCase1(o *hx.Out, p params) (result string, total int64) {
 		return runReelectCase(o, p)
 	case "snapshot":
 		return runSnapshotCase(o, p)
+	case "overlap":
+		return runOverlapCase(o, p)
 	}
 	panic("unknown leg " + p.leg)
 }
@@ -204,7 +207,7 @@ func main() {
 	legs := []struct {
 		leg   string
 		share int
-	}{{"leader", 50}, {"follower", 35}, {"reelect", 8}, {"snapshot", 7}}
+	}{{"leader", 49}, {"follower", 34}, {"reelect", 8}, {"snapshot", 7}, {"overlap", 2}}
 	for _, lg := range legs {
 		t0 := time.Now()
 		legBudget := budget * lg.share / 100
